@@ -16,6 +16,8 @@ mod eval_number;
     feature = "eval_number"
 ))]
 mod utils;
+#[cfg(feature = "verif_hooks")]
+pub mod verif_hooks;
 
 #[cfg(feature = "eval_complex")]
 pub use eval_complex::eval_complex;
